@@ -265,6 +265,7 @@ def contracts(reg):
         ensures=[("always-a-json-object", lambda c: V.is_Dict(c.ex.to_pv(c.st, c.result)) if c.ex.to_pv(c.st, c.result) is not None else F)],
         note="SER(value) if that is an object, else {'value': SER(value)}"))
     out.extend(decoder_contracts())
+    out.extend(cli_contracts())
     return out
 
 
@@ -367,6 +368,46 @@ def decoder_contracts():
                 Raises("Exception", sub=True, when=lambda c: z3.And(V.is_Dict(pvt(c, "data")), sp.HASKEY(V.ents(pvt(c, "data")), sv("_type"))),
                        label="malformed encoding")],
         note="from_json: objects carrying _type only"))
+    return out
+
+
+# ------------------------------------------------------------------- CLI --
+RES = z3.Function("RESULT", sp.I, V)
+
+
+def p_results():
+    def mk(ex, st, name):
+        n = z3.Int(name + ".len")
+        return [(n >= 0, VSeq(n, lambda i: PV(RES(i)), "result"))]
+    return Maker(mk, desc="list of extraction results (symbolic length)")
+
+
+def results_encodable(c):
+    i = z3.Int("i!res")
+    return z3.ForAll([i], sp.SEROK(RES(i)), patterns=[RES(i)])
+
+
+def cli_contracts():
+    from contracts.c05exec import UNIT, UNITS_N
+    n_of = lambda c: c.args["results"].length
+    b_of = lambda c: c.args["include_binary"].t
+    out = []
+    out.append(FnContract(
+        target=f"{CLI_PY}::_serialize_results", params=[("results", p_results()), ("include_binary", p_bool())],
+        requires=results_encodable,
+        returns=lambda c: [(n_of(c) == 1, PV(sp.SX(RES(z3.IntVal(0)), b_of(c)))),
+                           (n_of(c) != 1, VSeq(n_of(c), lambda i, c=c: PV(sp.SX(RES(i), b_of(c))), "object"))],
+        ensures=[("one-result-is-an-object", lambda c: z3.Implies(n_of(c) == 1, z3.BoolVal(isinstance(c.result, PV)) if not isinstance(c.result, PV)
+                                                                  else V.is_Dict(c.result.t)))],
+        note="--json: the to_json object for exactly one result, otherwise the array of the to_json objects, in order"))
+    units = lambda c, r: VSeq(UNITS_N(r), lambda i, c=c, r=r: PV(sp.SX(UNIT(r, i), b_of(c))), "unit object")
+    out.append(FnContract(
+        target=f"{CLI_PY}::_serialize_unit_results", params=[("results", p_results()), ("include_binary", p_bool())],
+        requires=results_encodable,
+        returns=lambda c: [(n_of(c) == 1, units(c, RES(z3.IntVal(0)))),
+                           (n_of(c) != 1, VSeq(n_of(c), lambda j, c=c: units(c, RES(j)), "array of unit objects"))],
+        raises=[Raises("Exception", sub=True, label="iterate_units() of a result failed (outside C05)")],
+        note="--json-unit: the array of unit objects for one result, otherwise one such array per result"))
     return out
 
 
